@@ -181,9 +181,26 @@ def small_objects(ctx):
         objcheck.replay_cover(ctx, g, [tok(SMALL_INIT)], exe, c, [c], small_key, walks=walks)
 
 
+def container_dup(ctx):
+    """The container modules carry the same A/B-slot Dup actions; their smallest scopes are replayed here too (every
+    reachable state incl. empty containers and NULL placeholders is dup'ed, then either side mutated/emptied/deleted)."""
+    from checks import c02, c03, c04
+    runs = [("MC_ListSeq.tla", "ListSeq_c05.cfg", c02, lambda cls: [cls], "list"),
+            ("MC_MapDict.tla", "MapDict_c05.cfg", c03, lambda cls: [cls, "2", "1"], "map"),
+            ("MC_VecBag.tla", "VecBag_c05.cfg", c04, lambda cls: [cls, "2"], "vector")]
+    for module, cfg, m, hargs, name in runs:
+        exe = m.harness(ctx)
+        g, res = objcheck.tlc_graph(ctx, module, cfg, workers=4)
+        ndup = sum(1 for i in range(g.n_edges()) if g._head[i].startswith("dup "))
+        ctx.add("dup_transitions_in_container_scopes", ndup)
+        for cls in LIST_CLASSES:
+            objcheck.replay_cover(ctx, g, [tok(m.INIT)], exe, "%s/%s" % (name, cls), hargs(cls), m.keyfn, walks=(0, 0), jobs=4)
+
+
 def run(ctx):
     cmp_tables(ctx)
     small_objects(ctx)
+    container_dup(ctx)
     ctx.cov["rule"] = "all ordered pairs of the bounded universe per class; all transitions of SmallObj in scope"
     ctx.assumptions += ["ASan build of the current tree (clang -O1)"]
 
